@@ -176,6 +176,9 @@ struct Ev {
     std::atomic<uint32_t> got_foreign_signo{0};
     std::atomic<uint32_t> wrong_thread{0};
     std::atomic<uint32_t> inner_call_failed{0};
+    //! armed by the orchestrator for ONE delivery: the callback of this (persistent) event disables that sibling - another
+    //! event of the same loop subscribed to the same signal - from inside the dispatch
+    std::atomic<Ev *> victim{nullptr};
     uint32_t seen[NSIG_USED];       // orchestrator: value of got[] at the previous check
     bool has(int si) const { for (int s : sigs) if (s == si) return true; return false; }
     Ev() { for (auto &g : got) g.store(0); for (auto &s : seen) s = 0; }
@@ -198,6 +201,16 @@ struct Case {
     // statistics for the non-triviality rule
     bool multi_loop_same_signal_delivery = false;
     bool delivery_to_more_than_8_loops = false;
+    //! events whose callback count is not judged in the current check: their subscription was changed between the delivery and
+    //! their turn in the dispatch (disabled by a sibling's callback, or disabled/destroyed on the loop thread while the
+    //! deliveries were still queued in the loop's pipe); 0 or 1 callback per delivery are both acceptable for them
+    std::set<int> unjudged;
+    //! one-shot events that re-enable themselves in their callback, hit by several deliveries that were all queued before the first
+    //! dispatch: the first one must fire; whether deliveries raised BEFORE the re-enable reach the re-armed event is not fixed by
+    //! the property (the unchanged tree delivers them unless the event was the loop's only subscription, in which case the pipe with
+    //! the queued entries is closed by the one-shot's own disable) - judged as "at least one, at most one per delivery"
+    std::set<int> rearm_queued;
+    bool loops_held = false;            // every loop thread is parked in a task while the current deliveries are raised
     bool full_cycle_mid_history = false;
     int prev_cnt[NSIG_USED];
     bool failed_enable_destroyed[NSIG_USED];    // an event whose enable() had failed, with this signal in its set, was destroyed
@@ -401,6 +414,7 @@ void ev_callback(Ev *e, int signo) {
     if (si < 0) e->got_foreign_signo.fetch_add(1);
     else e->got[si].fetch_add(1);
     if (e->lc->tid != gettid_()) e->wrong_thread.fetch_add(1);
+    if (Ev *v = e->victim.exchange(nullptr)) { if (v->obj && !v->obj->disable()) e->inner_call_failed.fetch_add(1); }
     if (e->flavour == F_SELF_DISABLE) { if (!e->obj->disable()) e->inner_call_failed.fetch_add(1); }
     else if (e->flavour == F_REARM) { if (!e->obj->enable()) e->inner_call_failed.fetch_add(1); }
 }
@@ -440,18 +454,27 @@ void check_is_enabled(Case &C, Ev &e, bool got, const char *after) {
 struct MiniOp { int kind; Ev *e; };   // kind: 0 enable 1 disable 2 destroy
 
 //! several operations on events of the same loop inside one loop task
+//! the calls themselves (on the owning loop's thread)
+void run_ops(const std::vector<MiniOp> &ops, std::vector<OpResult> &res) {
+    for (size_t i = 0; i < ops.size(); ++i) {
+        Ev &e = *ops[i].e;
+        switch (ops[i].kind) {
+            case 0: res[i].ret = e.obj->enable(); res[i].is_enabled = e.obj->isEnabled(); break;
+            case 1: res[i].ret = e.obj->disable(); res[i].is_enabled = e.obj->isEnabled(); break;
+            default: delete e.obj; e.obj = nullptr; break;
+        }
+    }
+}
+void account_ops(Case &C, LoopCtx &L, const std::vector<MiniOp> &ops, const std::vector<OpResult> &res);
+
 void op_compound(Case &C, LoopCtx &L, const std::vector<MiniOp> &ops) {
     std::vector<OpResult> res(ops.size());
-    on_loop(L, [&] {
-        for (size_t i = 0; i < ops.size(); ++i) {
-            Ev &e = *ops[i].e;
-            switch (ops[i].kind) {
-                case 0: res[i].ret = e.obj->enable(); res[i].is_enabled = e.obj->isEnabled(); break;
-                case 1: res[i].ret = e.obj->disable(); res[i].is_enabled = e.obj->isEnabled(); break;
-                default: delete e.obj; e.obj = nullptr; break;
-            }
-        }
-    });
+    on_loop(L, [&] { run_ops(ops, res); });
+    account_ops(C, L, ops, res);
+}
+
+//! model bookkeeping and return-value checks for operations that have been executed
+void account_ops(Case &C, LoopCtx &L, const std::vector<MiniOp> &ops, const std::vector<OpResult> &res) {
     for (size_t i = 0; i < ops.size(); ++i) {
         Ev &e = *ops[i].e;
         switch (ops[i].kind) {
@@ -521,12 +544,27 @@ void check_after_deliveries(Case &C, const std::vector<Delivery> &ds, const std:
                                                                e.id, e.loop, e.wrong_thread.load()));
         if (e.inner_call_failed.load())
             fail(C, "api/enable-or-disable-inside-callback-returned-false", vh::fmt("e%d (%s)", e.id, flname[e.flavour]));
-        for (int si = 0; si < NSIG_USED; ++si) {
+        int rearm_got = 0, rearm_want = 0;
+        for (int si = 0; si <= NSIG_USED; ++si) {
+            if (si == NSIG_USED) {
+                // a re-armed one-shot with queued deliveries: the first queued delivery must have fired it
+                if (rearm_want >= 1 && rearm_got == 0 && !C.unjudged.count(e.id))
+                    fail(C, "deliver/callback-missing", vh::fmt("e%d (%s) got no callback at all for %d queued delivery(ies) of its signals", e.id, flname[e.flavour], rearm_want));
+                break;
+            }
             uint32_t now = e.got[si].load();
             int delta = (int)(now - e.seen[si]);
             e.seen[si] = now;
             int want = expect[k][si];
             if (e.indeterminate && e.alive) { if (delta) vh::counter("callbacks_on_event_whose_enable_failed_not_judged", delta); continue; }
+            if (C.unjudged.count(e.id)) {
+                if (delta >= 0 && delta <= want) { if (want) vh::counter("callbacks_not_judged_subscription_changed_before_dispatch"); continue; }
+                // more callbacks than deliveries while enabled is wrong whatever the reading
+            }
+            if (C.rearm_queued.count(e.id) && ds.size() >= 2) {
+                rearm_got += delta; rearm_want += want;
+                if (delta >= 0 && delta <= want) { if (want) vh::counter("callbacks_rearmed_oneshot_queued_deliveries_loosely_judged"); continue; }
+            }
             if (delta == want) { if (want) vh::counter("callbacks_matched", want); continue; }
             std::string what = vh::fmt("e%d (loop %d/%s, %s, signals", e.id, e.loop, C.loops[e.loop]->engine.c_str(), flname[e.flavour]);
             for (int s : e.sigs) what += vh::fmt(" %s", g_signame[s]);
@@ -687,16 +725,19 @@ void deliver(Case &C, const std::vector<Delivery> &ds, Pending *defer = nullptr)
         for (int si = 0; si < NSIG_USED; ++si)
             was[k][si] = C.evs[k]->alive && C.evs[k]->enabled && C.evs[k]->has(si);
     C.reaction_may_overlap_handler = false; C.reaction_user_driven = false;
-    for (auto &d : ds) if (fatal_to_raise(C, d.si)) return;
+    C.unjudged.clear(); C.rearm_queued.clear();
+    for (auto &d : ds) if (fatal_to_raise(C, d.si)) { for (auto &e : C.evs) e->victim.store(nullptr); return; }
     for (auto &d : ds) {
         std::set<int> loops_hit; int receivers = 0;
+        std::vector<Ev *> victims;
         for (size_t k = 0; k < ne; ++k) {
             Ev &e = *C.evs[k];
             if (!(e.alive && e.enabled && e.has(d.si))) continue;
             ++expect[k][d.si]; ++receivers; loops_hit.insert(e.loop);
-            if (e.flavour != F_PERSIST && C.loops[e.loop]->running && !((d.via == V_LOOP_RAISE || d.via == V_KILL_LOOP) && d.loop == e.loop)) {
+            if ((e.flavour != F_PERSIST || e.victim.load()) && C.loops[e.loop]->running && !C.loops_held &&
+                !((d.via == V_LOOP_RAISE || d.via == V_KILL_LOOP) && d.loop == e.loop)) {
                 C.reaction_may_overlap_handler = true;
-                if (e.flavour != F_ONESHOT) C.reaction_user_driven = true;
+                if (e.flavour != F_ONESHOT || e.victim.load()) C.reaction_user_driven = true;
                 vh::counter("window_reaction_may_overlap_handler");
             }
             if (e.flavour == F_ONESHOT || e.flavour == F_SELF_DISABLE) {
@@ -704,8 +745,12 @@ void deliver(Case &C, const std::vector<Delivery> &ds, Pending *defer = nullptr)
                 vh::counter(e.flavour == F_ONESHOT ? "oneshot_fired" : "self_disable_fired");
                 if (model_count(C, d.si) == 0) vh::counter("restore_triggered_from_inside_dispatch");
                 if (e.sigs.size() > 1) vh::counter("oneshot_multi_signal_fired");
-            } else if (e.flavour == F_REARM) vh::counter("rearm_fired");
+            } else if (e.flavour == F_REARM) { vh::counter("rearm_fired"); if (C.loops_held) C.rearm_queued.insert(e.id); }
+            if (Ev *v = e.victim.load()) victims.push_back(v);
         }
+        // a sibling disabled from inside the dispatch: whether it is still called depends on its place in the dispatch order, which the
+        // property does not fix - not judged for this delivery; afterwards it is disabled. Everybody else is judged as usual.
+        for (Ev *v : victims) { C.unjudged.insert(v->id); v->enabled = false; }
         vh::counter("deliveries");
         vh::counter(vh::fmt("deliveries_to_%d_loops", (int)std::min<size_t>(loops_hit.size(), 3)));
         vh::counter_max("max_loops_subscribed_to_one_signal", loops_hit.size());
@@ -736,6 +781,105 @@ void deliver(Case &C, const std::vector<Delivery> &ds, Pending *defer = nullptr)
     if (by_kill && ds.size() == 1 && disp_is_sentinel(C.disp[ds[0].si].kind) && g_sent[ds[0].si].last_tid.load() == C.loops[ds[0].loop]->tid)
         vh::counter("handler_ran_on_loop_thread");
     check_after_deliveries(C, ds, expect, was);
+    for (auto &e : C.evs) e->victim.store(nullptr);
+}
+
+// ------------------------------------------------------------------------------------------------
+// deliveries queued behind a busy loop
+// ------------------------------------------------------------------------------------------------
+struct Gate { std::mutex m; std::condition_variable cv; int entered = 0; bool open = false; };
+
+//! Every running loop is parked inside a task; the deliveries of ds are raised back to back (each synchronously, from the
+//! orchestrator) and pile up in the loops' pipes; then each loop, still inside that task and therefore before it reads its
+//! pipe, executes release_ops[loop] (disable / destroy only). Nothing can react while the handler runs, so one-shot and
+//! self-modifying events are allowed here; the sequential model is exact because a loop dispatches its pipe in raise order.
+void held_burst(Case &C, const std::vector<Delivery> &ds, const std::vector<std::vector<MiniOp>> &release_ops) {
+    std::shared_ptr<Gate> gate(new Gate);
+    size_t nl = C.loops.size();
+    std::vector<std::vector<OpResult>> res(nl);
+    std::vector<std::pair<LoopCtx *, std::shared_ptr<Posted>>> posted;
+    int parked_wanted = 0;
+    for (size_t l = 0; l < nl; ++l) {
+        LoopCtx &L = *C.loops[l];
+        res[l].resize(release_ops[l].size());
+        if (!L.running) continue;
+        const std::vector<MiniOp> *ops = &release_ops[l];
+        std::vector<OpResult> *rs = &res[l];
+        posted.emplace_back(&L, post(L, [gate, ops, rs] {
+            {
+                std::unique_lock<std::mutex> g(gate->m);
+                ++gate->entered;
+                gate->cv.notify_all();
+                gate->cv.wait(g, [&gate] { return gate->open; });
+            }
+            run_ops(*ops, *rs);
+        }));
+        ++parked_wanted;
+    }
+    bool all_parked = true;
+    {
+        std::unique_lock<std::mutex> g(gate->m);
+        while (gate->entered < parked_wanted) {
+            gate->cv.wait_for(g, std::chrono::milliseconds(20));       // polling interval only
+            bool dead = false;
+            for (auto &pp : posted) if (pp.first->returned.load() && !pp.first->exit_requested) dead = true;
+            if (dead && gate->entered < parked_wanted) { all_parked = false; break; }
+        }
+    }
+    Pending pend;
+    bool raised = false;
+    if (all_parked && !C.failed) {
+        C.loops_held = true;
+        deliver(C, ds, &pend);
+        C.loops_held = false;
+        raised = !pend.ds.empty();
+    }
+    { std::lock_guard<std::mutex> g(gate->m); gate->open = true; gate->cv.notify_all(); }
+    for (auto &pp : posted) await(*pp.first, pp.second);
+    check_loops_alive(C);
+
+    // coverage: per loop, the entries its pipe held (a loop is notified iff it had a subscriber when the signal was raised) and
+    // which of them still find a subscriber when they are dispatched, in batches of 10 (one read())
+    if (raised) {
+        for (size_t l = 0; l < nl; ++l) {
+            std::set<int> on;       // events of this loop enabled when the loop starts to dispatch
+            for (size_t k = 0; k < pend.was.size(); ++k) {
+                Ev &e = *C.evs[k];
+                if (e.loop != (int)l) continue;
+                bool was_on = false; for (int si = 0; si < NSIG_USED; ++si) if (pend.was[k][si]) was_on = true;
+                bool released = false; for (auto &op : release_ops[l]) if (op.e == &e) released = true;
+                if (was_on && !released) on.insert((int)k);
+            }
+            std::vector<bool> live;
+            for (auto &d : ds) {
+                bool exists = false;
+                for (size_t k = 0; k < pend.was.size(); ++k) if (C.evs[k]->loop == (int)l && pend.was[k][d.si]) exists = true;
+                if (!exists) continue;
+                bool lv = false;
+                std::vector<int> consumed;
+                for (int k : on) if (C.evs[k]->has(d.si)) { lv = true; if (C.evs[k]->flavour == F_ONESHOT || C.evs[k]->flavour == F_SELF_DISABLE) consumed.push_back(k); }
+                for (int k : consumed) on.erase(k);
+                live.push_back(lv);
+            }
+            if (live.size() >= 2) vh::counter("pipes_with_several_queued_entries");
+            for (size_t b = 0; b < live.size(); b += 10) {
+                bool stale_seen = false, hit = false;
+                for (size_t i = b; i < live.size() && i < b + 10; ++i) { if (!live[i]) stale_seen = true; else if (stale_seen) hit = true; }
+                if (hit) vh::counter("batches_with_stale_entry_before_live_entry");
+            }
+        }
+    }
+    // the operations run at release time changed subscriptions between the deliveries and their dispatch
+    for (size_t l = 0; l < nl; ++l) {
+        for (auto &op : release_ops[l]) if (op.e->alive) C.unjudged.insert(op.e->id);
+        if (!release_ops[l].empty()) { account_ops(C, *C.loops[l], release_ops[l], res[l]); vh::counter("held_burst_release_ops", release_ops[l].size()); }
+    }
+    vh::counter("held_bursts");
+    if (C.failed || !raised) return;
+    barrier(C, 2);
+    check_loops_alive(C);
+    if (C.failed) return;
+    check_after_deliveries(C, pend.ds, pend.expect, pend.was);
 }
 
 // ------------------------------------------------------------------------------------------------
@@ -900,6 +1044,16 @@ void random_case(uint64_t idx, vh::Rng &r) {
         std::vector<int> sigs;
         int style = 0;
         unsigned pick = (unsigned)r.below(10);
+        // one new event in three joins an existing one: same loop, one of its signals (so that 3 and more events of one loop share a signal)
+        std::vector<Ev *> mates;
+        for (auto &e : C.evs) if (e->alive) mates.push_back(e.get());
+        if (!mates.empty() && r.chance(1, 3)) {
+            Ev *m = r.pick(mates);
+            loop = m->loop;
+            sigs.push_back(r.pick(m->sigs));
+            style = r.chance(1, 4) ? 1 : 0;
+            vh::counter("events_created_next_to_a_sibling");
+        } else
         if (pick < 6 || C.used_sigs.size() == 1) { sigs.push_back(r.pick(C.used_sigs)); style = r.chance(1, 4) ? 1 : 0; }
         else {
             size_t want = pick < 9 ? 2 : C.used_sigs.size();
@@ -1080,10 +1234,14 @@ void random_case(uint64_t idx, vh::Rng &r) {
         } else {
             // deliveries
             bool selfmod = any_self_modifying_enabled(C);
+            // one delivery step in five: every loop is parked in a task while 2-14 deliveries (mostly different signal numbers) are
+            // raised, and 0-2 of the subscribed events are disabled / destroyed on their loop before it reads its pipe
+            const bool held = r.chance(1, 5);
             int nd = 1;
-            if (!selfmod && r.chance(1, 5)) nd = r.chance(1, 5) ? 11 + (int)r.below(15) : 2 + (int)r.below(6);
+            if (held) nd = r.chance(1, 6) ? 11 + (int)r.below(4) : 2 + (int)r.below(5);
+            else if (!selfmod && r.chance(1, 5)) nd = r.chance(1, 5) ? 11 + (int)r.below(15) : 2 + (int)r.below(6);
             std::vector<Delivery> ds;
-            bool same_sig = r.chance(1, 2);
+            bool same_sig = held ? r.chance(1, 6) : r.chance(1, 2);
             std::vector<int> subscribed;
             for (int si : C.used_sigs) if (model_count(C, si) > 0) subscribed.push_back(si);
             auto pick_sig = [&]() -> int {
@@ -1099,6 +1257,7 @@ void random_case(uint64_t idx, vh::Rng &r) {
                 // pthread_kill at a loop thread: single deliveries only (two signals pending on one thread may merge), and not under
                 // TSan (it runs the handler of a foreign signal at a later safe point, which voids the barrier argument)
                 if (via == V_KILL_LOOP && (nd > 1 || C.only_raise)) via = V_RAISE;
+                if (held && via != V_SIGQUEUE) via = V_RAISE;      // the loop threads are parked: raised from the orchestrator only
                 int target = (int)r.below(nloops);
                 if (via == V_KILL_LOOP && r.chance(2, 3)) {
                     // prefer a loop that itself has an enabled subscriber: the interrupted loop then has to dispatch the signal too
@@ -1118,8 +1277,60 @@ void random_case(uint64_t idx, vh::Rng &r) {
                                  ds[i].via == V_LOOP_RAISE ? "raise on L" : "pthread_kill at the waiting thread of L",
                                  ds[i].via >= V_LOOP_RAISE ? std::to_string(ds[i].loop).c_str() : "");
                 if (ds.size() > 6) d += " ...";
-                say(C, d);
-                deliver(C, ds);
+                if (held) {
+                    std::vector<std::vector<MiniOp>> rel(C.loops.size());
+                    std::vector<Ev *> cand;     // enabled events subscribed to one of the queued signals, the first one preferred
+                    for (auto &e : C.evs) if (e->alive && e->enabled && !e->indeterminate && e->has(ds[0].si)) cand.push_back(e.get());
+                    if (cand.empty() || r.chance(1, 3))
+                        for (auto &e : C.evs) if (e->alive && e->enabled && !e->indeterminate) for (auto &x : ds) if (e->has(x.si)) { cand.push_back(e.get()); break; }
+                    int nrel = cand.empty() ? 0 : (int)r.below(3);
+                    std::set<Ev *> chosen;
+                    std::string rd;
+                    for (int i = 0; i < nrel; ++i) {
+                        Ev *e = r.pick(cand);
+                        if (chosen.count(e)) continue;
+                        chosen.insert(e);
+                        int k = r.chance(2, 3) ? 1 : 2;
+                        rel[e->loop].push_back(MiniOp{k, e});
+                        rd += vh::fmt(" %s e%d", k == 1 ? "disable" : "destroy", e->id);
+                        C.sig.add(9000 + k * 100 + e->id);
+                    }
+                    say(C, "with every loop parked in a task, " + d + (rd.empty() ? std::string("; then the loops go on") : "; then, before the loops read their pipes:" + rd));
+                    held_burst(C, ds, rel);
+                } else {
+                    // a persistent event's callback disables a sibling (same loop, same signal) in the middle of the dispatch, with at least
+                    // one more event on that signal in that loop looking on
+                    if (ds.size() == 1 && r.chance(3, 4)) {
+                        int si = ds[0].si;
+                        std::vector<int> loops3;
+                        for (size_t l = 0; l < C.loops.size(); ++l) if (C.loops[l]->running && model_count_loop(C, si, (int)l) >= 3) loops3.push_back((int)l);
+                        if (!loops3.empty()) {
+                            int l = r.pick(loops3);
+                            std::vector<Ev *> plain, all;
+                            for (auto &e : C.evs) if (e->alive && e->enabled && e->loop == l && e->has(si)) {
+                                all.push_back(e.get());
+                                if (e->flavour == F_PERSIST && !e->indeterminate) plain.push_back(e.get());
+                            }
+                            if (plain.size() >= 2) {
+                                size_t a = r.below(plain.size()), b = r.below(plain.size() - 1); if (b >= a) ++b;
+                                Ev *D = plain[a], *V = plain[b];
+                                D->victim.store(V);
+                                vh::counter("deliveries_with_sibling_disabled_in_callback_3plus_events");
+                                for (Ev *B : all) {
+                                    if (B == D || B == V) continue;
+                                    uintptr_t pd = (uintptr_t)D->obj, pv = (uintptr_t)V->obj, pb = (uintptr_t)B->obj;
+                                    const char *o = pd < pv ? (pv < pb ? "disabler_victim_bystander" : pd < pb ? "disabler_bystander_victim" : "bystander_disabler_victim")
+                                                            : (pd < pb ? "victim_disabler_bystander" : pv < pb ? "victim_bystander_disabler" : "bystander_victim_disabler");
+                                    vh::counter(std::string("address_order_") + o);
+                                }
+                                d += vh::fmt(" [the callback of e%d disables e%d]", D->id, V->id);
+                                C.sig.add(9500 + D->id * 20 + V->id);
+                            }
+                        }
+                    }
+                    say(C, d);
+                    deliver(C, ds);
+                }
             }
         }
         if (!C.failed) check_dispositions(C, "the last step");
